@@ -138,7 +138,7 @@ def direct_trace(octets: bytes, origin: str) -> dict | None:
     from han.dlde import DataReadout
     try:
         ro = DataReadout(octets)
-    except ValueError:
+    except Exception:  # noqa: BLE001
         return None  # the constructor's documented refusal (no '/' or no '!'): not a readout
     rec = readout_record(ro)
     return {"id": stable_id("p1d", octets.hex()), "canary": "", "origin": origin, "mode": "direct", "plan": [],
